@@ -18,6 +18,7 @@ def P(qr, qw, tr, tw, **kw):
 PLAN = {
     "C01": P(6000, 75, 200000, 900),
     "C02": P(5000, 75, 150000, 900),
+    "C18": P(2000, 90, 60000, 900, chunk=200),
     "C17": P(1500, 90, 40000, 900, chunk=150),
     "C05": P(1500, 90, 40000, 900, chunk=150),
     "C16": P(2500, 90, 60000, 900),
@@ -36,6 +37,11 @@ PLAN = {
 }
 
 LEVELS = {
+    "C18": {"level": "exploration", "rule": RULE + "; here a run is one random operation program (<= 60 operations) followed by a scheduled commit and download",
+            "text": "random programs of CreateFile, MkDir, WriteFile, SetInodeAttributes(size), ReadFile (also across EOF, as page-sized kernel reads are), LookUpInode (existing and missing names), Unlink, RmDir (empty and non-empty), Rename (onto a free name, file onto file), GetInodeAttributes + ReadDir, and ForgetInode with the kernel's counting (all references of an unlinked node; of a live node under cache pressure, followed later by a fresh lookup) over 4 names, on a real staging directory; each answer (success / errno, inode, type, size, bytes, directory content) is compared with a reference POSIX tree and no two live entries may share an inode; the mount is then committed into the simulated stores under the scheduler and the bundle downloaded: its files equal the visible tree",
+            "note": "only requests a kernel can send are generated (the VFS answers EEXIST / EISDIR / ENOTDIR / same-entry renames itself; directory-over-directory renames are not generated); a fatal Go error or a panic outside the caller's goroutine kills the worker and is reported with its seed",
+            "components": {"real": ["pkg/fuse mutable file system + commit", "pkg/core", "pkg/cafs", "afero OsFs staging directory"], "stub": STUB},
+            "assumptions": ["one caller (the statement quantifies over programs, not schedules)"]},
     "C17": {"level": "exploration", "rule": RULE,
             "text": "bundles built by real uploads (deep nesting, 20-60 siblings, empty and multi-leaf files, hostile names) are mounted read-only, streamed and pre-downloaded; 1..4 caller tasks (the FUSE server dispatches each kernel request on its own goroutine) issue random programs of lookup walks, getattr, opendir/readdir with 48..4096-byte buffers resumed at every returned offset, and ReadFile at any offset/length including at and after EOF, while the scheduler interleaves the leaf reads of the streaming cafs (LRU 1-6 buffers, prefetch 0-2); a configuration adds transient blob-read failures (EIO or correct bytes). Oracle: the directory tree implied by the uploaded files",
             "note": "the file-system methods are called directly (reflect on the unexported fsInternal field): no kernel FUSE transport; the streamed mount is given the bundle's leaf size up front (DESIGN §6 C17)",
